@@ -113,5 +113,12 @@ pub fn wopts(level: u32, exponent: u8) -> Vec<WOpt> {
             }
         }
     }
+    // boundary block: breaks inside the float range combined with many minimum digits, where the
+    // documented buffer bound has no slack (value exponent == break, negative sign)
+    for &neg_break in &[None, Some(-13), Some(-20), Some(-300)] {
+        for &min in &[Some(28usize), Some(64), Some(100)] {
+            v.push(WOpt { max: None, min, truncate: false, trim: false, pos_break: None, neg_break, point: b'.', exponent });
+        }
+    }
     v
 }
